@@ -18,6 +18,7 @@ F_TELNET = "C11-telnet-state-survives-close"
 F_BIO = "C11-user-bytesio-closed"
 F_PMK = "C11-paramiko-failed-open-leak"
 F_RECLOSE = "C11-reclose-raises"
+F_TCLOSE = "C11-tclose-raises-skips-channel-close"
 
 
 # ------------------------------------------------------------------ histories
@@ -81,6 +82,11 @@ def configs(tier):
                 i += 1
                 c = dict(stack=stack, platform=plat, kind="sim", sink=sink, on_open=oo, on_close=oc)
                 out.append(c)
+    # a transport whose close() fails whenever it holds a session (PtyProcess.close(): "Could not terminate the child.")
+    for stack, plat, sink, oo, oc in (("sync", "generic", "path", "default", "default"), ("async", "cisco_iosxe", "true", "default", "default"),
+                                      ("sync", "juniper_junos", "path", "ok", "raise"), ("async", "generic", "path", "none", "none"),
+                                      ("sync", "arista_eos", "bytesio", "default", "default")):
+        out.append(dict(stack=stack, platform=plat, kind="sim", sink=sink, on_open=oo, on_close=oc, tclose_raises=True))
     # the two in-channel authentication branches of open()
     for plat in ("cisco_iosxe", "juniper_junos"):
         out.append(dict(stack="sync", platform=plat, kind="sim", sink="path", on_open="default", on_close="default", tname="system", bypass=False))
@@ -111,9 +117,10 @@ def hook_word(case, which):
 
 
 def model_kind(case):
+    tcr = "+tcr" if case.get("tclose_raises") else ""
     if case.get("kind", "sim") == "sim":
-        return "sim"
-    return "telnet" if case["stack"] == "sync" else "asynctelnet"
+        return "sim" + tcr
+    return ("telnet" if case["stack"] == "sync" else "asynctelnet") + tcr
 
 
 def model_tname(case):
@@ -149,11 +156,23 @@ def parse_model(line):
     return out
 
 
+EXACT = ("ret", "HookError", "BodyError", "ValueError")
+
+
+def canon_out(out, marks):
+    """the outcome as far as C11 speaks about it: returns | the hook's / the body's / the log sink's own exception | the
+    ScrapliConnectionError `__enter__` re-raises when open() fails | otherwise just 'a scrapli error' -- WHICH scrapli class a
+    transport or channel raises for a lost / refused / timed-out session is C07/C08 matter and keeps being repaired there"""
+    if out in EXACT or (marks and marks[-1] == "enter-raised"):
+        return out
+    return "ScrapliError" if out.startswith("Scrapli") else "other:" + out
+
+
 def compare(case, results, model):
     """correspondence on the property-relevant observables; returns None or a description of the first difference"""
     kind = case.get("kind", "sim")
     for i, (res, m) in enumerate(zip(results, model)):
-        if res["out"] != m["out"]:
+        if canon_out(res["out"], res["marks"]) != canon_out(m["out"], m["trace"]):
             return f"op {i} outcome impl={res['out']} model={m['out']}"
         if res["marks"] != m["trace"]:
             return f"op {i} statements reached impl={'>'.join(res['marks'])} model={'>'.join(m['trace'])}"
@@ -214,7 +233,11 @@ def oracle(case, results, fresh_outcomes):
         fl = res["flags"]
         if closed and i and released(results[i - 1]["flags"]):
             closed = False     # the previous close()/with-exit did not release (reported there): not a closed connection
-        if spec["op"] in ("C", "W"):
+        if spec["op"] in ("C", "W") and res.get("tclose_raised"):
+            # transport.close() itself failed (injected): its session is beyond scrapli's reach, but the channel log is not
+            if fl["file"]:
+                yield ("leak-log", i, f"after {op_str(spec)} ({res['out']}): transport.close() raised and the channel log file handle is still open", {})
+        elif spec["op"] in ("C", "W"):
             bad = released(fl)
             if bad:
                 yield ("leak", i, f"after {op_str(spec)} ({res['out']}): " + "; ".join(bad), {})
@@ -229,7 +252,7 @@ def oracle(case, results, fresh_outcomes):
     # a closed connection can be opened again: fault-free segments after the first behave as on a new connection
     segs = segments(ops)
     for si, (start, specs) in enumerate(segs):
-        if si == 0 or any(s.get("fault") for s in specs):
+        if si == 0 or any(s.get("fault") for s in specs) or case.get("tclose_raises"):
             continue
         got = [results[start + j]["out"] for j in range(len(specs))]
         want = fresh_outcomes(specs)
@@ -251,6 +274,9 @@ def make_matcher(kind, i, info, results, case):
             if case.get("kind") == "paramiko" and res.get("auth_failed_in_open"):
                 return F_PMK
             return None
+        if kind == "leak-log":
+            # transport.close() raised during this very operation and only the log file handle is complained about
+            return F_TCLOSE if res.get("tclose_raised") else None
         if kind == "reclose":
             # the on_close hook talks to the device, the exception is the transport's "not opened", nothing is held
             if hook_talks(case) and res["out"] == "ScrapliConnectionNotOpened" and not released(res["flags"]):
@@ -338,6 +364,7 @@ def evaluate(ck, runner, case, results, batch, tags=()):
             sample={k: v for k, v in case.items() if k != "ops"} | {"ops": [op_str(s) for s in case["ops"]]},
             tags=(f"stack={case['stack']}", f"kind={case.get('kind', 'sim')}", f"platform={case['platform']}", f"sink={case.get('sink', 'none')}",
                   f"on_open={case.get('on_open', 'default')}", f"on_close={case.get('on_close', 'default')}", f"len={len(case['ops'])}",
+                  *(("tclose-raises",) if case.get("tclose_raises") else ()),
                   "fault=" + ",".join(sorted({(s['fault'][0] + ":" + s['fault'][2]) for s in case['ops'] if s.get('fault')}) or ["none"]),
                   *("out=" + r["out"] for r in results), *tags))
     viol = []
@@ -524,13 +551,14 @@ def run(tier, seed):
         if tier == "thorough":
             real_timer_cases(ck, runner, batch)
             ck.extra["phase_s"]["real-timers"] = round(time.time() - tp, 1); tp = time.time()
-            try:
-                from harness import c11real
-                c11real.run_all(ck, sys.modules[__name__])
-            except c11rig.RigTrouble as e:
-                print(f"HARNESS-ERROR C11 real rigs: {e}", file=sys.stderr)
-                runner.close()
-                return 2
+        # real transports: quick = the pty rig whose ssh child exits / hangs up mid-operation; thorough = all five transports
+        try:
+            from harness import c11real
+            c11real.run_all(ck, sys.modules[__name__], tier)
+        except c11rig.RigTrouble as e:
+            print(f"HARNESS-ERROR C11 real rigs: {e}", file=sys.stderr)
+            runner.close()
+            return 2
     finally:
         pass
     # 4 the Lean model on every run
@@ -597,7 +625,7 @@ def replay_witnesses(ck, runner, mine):
 
 def check_variant_vs_findings(ck, info, live):
     """the source variant the translator sees and the liveness of the witnesses must tell the same story"""
-    expect = {F_CLOSE: info.get("close") == "orig", F_BIO: info.get("bio") == "0",
+    expect = {F_CLOSE: info.get("close") == "orig", F_BIO: info.get("bio") == "0", F_TCLOSE: info.get("close") != "fixed2",
               F_TELNET: info.get("telnet") != "all" or info.get("asynctelnet") != "all"}
     for fid, exp in expect.items():
         if fid in live and live[fid] != exp:
@@ -606,8 +634,8 @@ def check_variant_vs_findings(ck, info, live):
     for k in ("open", "enter", "exit"):
         if info.get(k) != "ok":
             ck.proof_broken(f"source program {k}", f"the generated program of {k} is not the one the theorems are about: {info}")
-    if info.get("close") not in ("fixed", "orig"):
-        ck.proof_broken("source program close", f"the generated close() is neither of the two programs the theorems are about: {info}")
+    if info.get("close") not in ("fixed", "fixed2", "orig"):
+        ck.proof_broken("source program close", f"the generated close() is none of the programs the theorems are about: {info}")
 
 
 def replay(path):
